@@ -174,9 +174,10 @@ type muxGen struct {
 	keyEvery       int // if >0 force regular GOP
 	videoOnly      bool
 	forceVideo     bool
-	reorder        bool // some H264 tracks carry B-frames
-	h26xOnly       bool // video is H264 or H265 (codecs whose parameter sets travel in-band as NAL units)
-	paramChangeDen int  // a parameter change at a key frame with probability 1/paramChangeDen (default 6)
+	reorder        bool     // some H264 tracks carry B-frames
+	h26xOnly       bool     // video is H264 or H265 (codecs whose parameter sets travel in-band as NAL units)
+	videoKinds     []string // if set: the video codec is one of these
+	paramChangeDen int      // a parameter change at a key frame with probability 1/paramChangeDen (default 6)
 }
 
 var aacRates = []int{8000, 11025, 12000, 16000, 22050, 24000, 32000, 44100, 48000, 88200, 96000}
@@ -218,6 +219,9 @@ func genMuxCfg(r *Run, g *muxGen) *muxCfg {
 			kind = Pick(T, "h264", "h264", "h265", "vp9", "av1")
 			if g.h26xOnly {
 				kind = Pick(T, "h264", "h265")
+			}
+			if len(g.videoKinds) > 0 {
+				kind = g.videoKinds[T.Intn(len(g.videoKinds))]
 			}
 		}
 		reorder := g.reorder && kind == "h264" && T.Chance(1, 3)
